@@ -57,6 +57,22 @@ THEOREMS = [
       fst (Prog.run (mp4_view true U64MAXN st) (sanitize_prog cfg fuel) (mp4_view_init true U64MAXN st data)) = EParse TruncatedBox /\\
       fst (Prog.run (mp4_view true I64MAX st) (sanitize_prog cfg fuel) (mp4_view_init true I64MAX st data)) = EIo EInvalidInput"""),
 ]
+_ATREQ = ["From Coq Require Import List NArith ZArith Bool.",
+          "From MS Require Import Base.Bytes Base.Outcome Base.Cursor Base.Adapters Base.Prog Base.StackReader Base.StackSpec Mp4.San Props.C11at.",
+          "Open Scope N_scope."]
+THEOREMS = THEOREMS + [
+    ("C11_stack_refines_cursor_at", """forall (own_cap : N) (stdf : bool) (ms : N) (st : stk) (data : bytes) (inp : input) (k : N),
+  1 <= own_cap -> stk_ok st -> blen data <= I64MAX -> ms_ok (blen data) ms -> inp_is inp data -> k <= blen data ->
+  forall (A : Type) (p : Prog.prog A),
+    fst (Prog.run (stack_reader own_cap stdf ms st) p (stack_init_at k ms st data)) = fst (Prog.run (Prog.cursor inp true ms) p k)"""),
+    ("C11_same_result_mp4_at", """forall (cfg : config) (fuel : nat) (ms : N) (st1 st2 : stk) (e1 e2 : bool) (data : bytes) (k : N),
+  stk_ok st1 -> stk_ok st2 -> blen data <= I64MAX -> ms_ok (blen data) ms -> k <= blen data ->
+  fst (Prog.run (mp4_view e1 ms st1) (sanitize_prog cfg fuel) (mp4_view_init_at k e1 ms st1 data)) =
+  fst (Prog.run (mp4_view e2 ms st2) (sanitize_prog cfg fuel) (mp4_view_init_at k e2 ms st2 data))"""),
+]
+REQUIRES_FOR = {"C11_stack_refines_cursor_at": _ATREQ, "C11_same_result_mp4_at": _ATREQ}
+COQ_TARGETS = COQ_TARGETS + ["theories/Props/C11at.vo"]
+COQCHK = COQCHK + ["MS.Props.C11at"]
 TRUSTED = [
     "Coq 8.16.1 kernel (coqc; coqchk in the thorough tier); vm_compute for C11_cursor_vs_file_refuted and the Examples; no native_compute",
     "axioms: none (Print Assumptions = Closed under the global context for every theorem)",
@@ -87,7 +103,9 @@ RULE = ("each case = one byte string + configuration seen through 10..120 views;
         "futures Cursor, std and futures BufReader of every capacity 1..64 and default over Cursor / SeekSkipAdapter / File, two-level buffers, "
         "chunk sizes 1..n (n = input length) on the chunking base and under BufReader; (b) per input 14 (quick) / 40 (thorough) seeded random "
         "views over bases {Cursor, File, &File, chunking reader, SeekSkipAdapter over each, &mut Cursor; futures Cursor, SeekSkipAdapter over "
-        "it, async chunking reader}, depth 0..3, capacities 1..64/default, fixed and random chunkings. Oracle: all views of one byte string give "
+        "it, async chunking reader}, depth 0..3, capacities 1..64/default, fixed and random chunkings; (c) `viewsat k`: the same with every bottom "
+        "reader ALREADY ADVANCED by k bytes (1..100) when the sanitizer receives it (a caller that read a prefix first), 7 mp4 inputs x 2 configurations "
+        "and 4 webp inputs. Oracle: all views of one byte string give "
         "the same canonical result (error kinds compared). Non-trivial = at least 40 bytes and at least 2 views; distinct = distinct case lines.")
 EXHAUSTIVE = {"quick": True, "thorough": True}
 XCHECK_N = 12
@@ -127,6 +145,17 @@ def rand_view(rng, entries, n, webp=False):
         else:
             chunks = tuple(rng.randint(1, 9) if rng.random() < 0.8 else rng.randint(1, 70) for _ in range(rng.randint(2, 12)))
     return view(e, layers, base, caps, chunks, force_dyn=rng.random() < 0.2)
+
+
+def norm(ln):
+    """a `viewsat <k> ...` line as the `views ...` line it extends (token positions of the helpers below)"""
+    if ln.startswith("viewsat "):
+        return "views " + ln.split(" ", 2)[2]
+    return ln
+
+
+def line_at(k, kind, mx, cum, data, views, fsmax):
+    return "viewsat %d " % k + line(kind, mx, cum, data, views, fsmax).split(" ", 1)[1]
 
 
 def line(kind, mx, cum, data, views, fsmax):
@@ -267,6 +296,18 @@ def gen(run):
         for d in (P.F() + md + big, P.F() + big + md):
             yield line("mp4", None, None, d, views_for(ALL, 64, 8), fsmax), "big-moov"
             yield line("mp4", len(big) - 9, None, d, views_for(CFG, 64, 4), fsmax), "big-moov"
+    # readers that are already advanced when they are handed over (a caller that read a k-byte prefix first): positions stay the
+    # reader's own, and the entry points and stacks still agree
+    pre_inputs = [P.F() + md + m1, P.F() + m1 + md, P.F() + md + m1 + box(b"free", b"xy"), (P.F() + md + m1)[:-3], P.F() + m1 + box(b"mdat", b"abc", form="eof"),
+                  P.F() + box(b"free", b"\0" * 3) + md + P.simple_moov([(8, [40, 2 ** 33])]), P.F() + md[:-2]]
+    for d in pre_inputs:
+        for k in ((1, 8, 64) if quick else (1, 2, 7, 8, 9, 31, 32, 33, 64, 100)):
+            pre = bytes((37 * i + 11) % 256 for i in range(k))
+            yield line_at(k, "mp4", None, None, pre + d, views_for(ALL, len(d), nviews), fsmax), "pre-advanced"
+            yield line_at(k, "mp4", len(m1) - 8, None, pre + d, views_for(CFG, len(d), 6), fsmax), "pre-advanced"
+    for w in webp_inputs()[:4]:
+        for k in (1, 8, 13):
+            yield line_at(k, "webp", None, None, bytes(k) + w, views_for(["s", "sc"], len(w), 8), fsmax), "pre-advanced-webp"
     # webp
     for w in webp_inputs():
         yield line("webp", None, None, w, views_for(["s", "sc"], len(w)), fsmax), "webp"
@@ -276,6 +317,7 @@ def gen(run):
 
 
 def same(ln, impl, model):
+    ln = norm(ln)
     if ln.split()[1] != "mp4":
         return True
     return impl == model
@@ -291,7 +333,7 @@ def classify(ln, impl):
 
 
 def nontrivial(ln, impl):
-    t = ln.split()
+    t = norm(ln).split()
     return len(t[4]) >= 80 and t[5].count(",") >= 1
 
 
@@ -312,7 +354,7 @@ def known_class(ln, impl):
         return None
     parts = impl[5:].split(" ## ")
     first, diffs = parts[0], parts[1:]
-    views = ln.split()[5].split(",")
+    views = norm(ln).split()[5].split(",")
     if "file" in views[0]:
         return None
     file_views = [v for v in views if "file" in v]
@@ -378,6 +420,8 @@ def _coq_stack(v, fsmax):
 
 
 def coq_bool(ln, model_out):
+    if ln.startswith("viewsat "):
+        return None
     t = ln.split()
     if t[1] != "mp4" or len(t[4]) > 700 or not model_out.startswith("all="):
         return None
